@@ -2,10 +2,11 @@
 import itertools, re
 from gen import Gen, KEYS
 from seqdiff import run_seq
-from seqprop import coverage, replay_file, corpus
+from seqprop import coverage, replay_file, corpus, audit
 
-LEVEL = "translation_validation"
-COQ_TARGETS = ()
+LEVEL = "proof"
+COQ_TARGETS = ("props/C07.vo",)
+THEOREMS = ["C07_has_conflict_iff", "C07_footprints", "C07_validation_sound"]
 RULE = ("histories of 2-5 concurrently open optimistic transactions over 1-2 keyspaces and a small key set, every read method "
         "(get, contains_key, size_of, first/last_key_value, iter, range, prefix, is_empty, len) and write method (insert, "
         "remove, take, fetch_update, update_fetch), single-operation helpers, all begin/commit/rollback orders, with rotate/gc "
@@ -48,6 +49,7 @@ def pure_programs(seed, n, nops):
 
 def run(rep, tier, seed, build):
     n, nops = (300, 40) if tier == "quick" else (6000, 70)
+    audit(rep, "props/C07.v", THEOREMS, build)
     progs = corpus("C07") + programs(seed, n, nops) + pure_programs(seed, n, 28)
     res = run_seq(rep, progs)
     ser, eligible = serial_check(res["results"])
